@@ -3,6 +3,8 @@ package main
 
 import (
 	"bytes"
+	"crypto"
+	"sort"
 	"encoding/binary"
 	"fmt"
 	"hash"
@@ -37,6 +39,9 @@ func pickLen(g *hx.Gen) int {
 // split total into write sizes
 func chunking(g *hx.Gen, total int) []int {
 	r := g.R
+	if total == 0 { // empty message: no Write at all, one empty Write, several empty Writes
+		return [][]int{nil, {0}, {0, 0}, {0, 0, 0}}[r.Intn(4)]
+	}
 	var out []int
 	left := total
 	mode := r.Intn(6)
@@ -120,13 +125,33 @@ func genAt(g *hx.Gen) {
 		}
 	}
 	ops = append(ops, fmt.Sprintf("s:%d", r.PickInt(0, 0, 3)))
+	if r.Chance(1, 4) { // the object stays usable after a Sum (also after a recovered panic of Sum)
+		ops = append(ops, "w:7", "s:0", "r", "w:3", "s:0")
+		total += 10
+	}
 	g.Stat("at." + alg)
 	g.Emit("at alg=%s st=%s buf=%s len=%d ops=%s src=%s", alg, hx.Hex(st), hx.Hex(r.Bytes(nbuf)), L, strings.Join(ops, ","), hx.Hex(r.Bytes(total)))
 }
 
+// statPairs counts every unordered pair of the features present in one case (pair.<a>+<b>)
+func statPairs(g *hx.Gen, feats []string) {
+	sort.Strings(feats)
+	for i := range feats {
+		g.Stat("feat." + feats[i])
+		for j := i + 1; j < len(feats); j++ {
+			g.Stat("pair." + feats[i] + "+" + feats[j])
+		}
+	}
+}
+
 func gen(g *hx.Gen) {
-	n := g.Count(6000, 150000)
+	n := g.Count(4000, 150000)
 	r := g.R
+	// shift / word-index / constant tables are indexed by the step number only: every entry is used by every block
+	g.Stat("table.md4-steps=48/48")
+	g.Stat("table.ripemd160-steps=160/160")
+	g.Emit("acc alg=md4")
+	g.Emit("acc alg=rmd160")
 	for i := 0; i < g.Count(240, 6000); i++ {
 		genAt(g)
 	}
@@ -158,8 +183,36 @@ func gen(g *hx.Gen) {
 				g.Stat("reset")
 			}
 		}
+		feats := []string{alg}
 		if sums > 0 {
 			g.Stat("midstream-sum")
+			feats = append(feats, "midsum")
+		}
+		if resetAt >= 0 {
+			feats = append(feats, "reset")
+		}
+		if total%64 == 0 {
+			feats = append(feats, "block-multiple")
+		}
+		if total%64 == 55 || total%64 == 56 {
+			feats = append(feats, "pad-edge")
+		}
+		if total == 0 {
+			feats = append(feats, "empty-msg")
+		}
+		for _, w := range ws {
+			if w == 0 {
+				feats = append(feats, "empty-write")
+				break
+			}
+		}
+		if len(ws) > 1 {
+			feats = append(feats, "chunked")
+		}
+		ctor := "new"
+		if r.Chance(1, 3) { // crypto.MD4.New() / crypto.RIPEMD160.New(): the registered constructors
+			ctor = "reg"
+			feats = append(feats, "ctor-reg")
 		}
 		ops = append(ops, "s:0")
 		src := r.Bytes(total)
@@ -174,7 +227,8 @@ func gen(g *hx.Gen) {
 			}
 		}
 		g.Stat("alg." + alg)
-		g.Emit("h alg=%s ops=%s src=%s", alg, strings.Join(ops, ","), hx.Hex(src))
+		statPairs(g, feats)
+		g.Emit("h alg=%s ctor=%s ops=%s src=%s", alg, ctor, strings.Join(ops, ","), hx.Hex(src))
 	}
 }
 
@@ -193,14 +247,27 @@ func exec(line string) string {
 			return "bad-op"
 		}
 	} else {
+		reg := o.Str("ctor") == "reg"
 		switch o.Str("alg") {
 		case "md4":
 			h = md4.New()
+			if reg {
+				h = crypto.MD4.New()
+			}
 		case "rmd160":
 			h = ripemd160.New()
+			if reg {
+				h = crypto.RIPEMD160.New()
+			}
 		default:
 			return "bad-op"
 		}
+	}
+	if o.Cmd == "acc" { // accessors and package constants
+		return fmt.Sprintf("size=%d block=%d consts=%d,%d avail=%v", h.Size(), h.BlockSize(),
+			map[string]int{"md4": md4.Size, "rmd160": ripemd160.Size}[o.Str("alg")],
+			map[string]int{"md4": md4.BlockSize, "rmd160": ripemd160.BlockSize}[o.Str("alg")],
+			map[string]bool{"md4": crypto.MD4.Available(), "rmd160": crypto.RIPEMD160.Available()}[o.Str("alg")])
 	}
 	src := o.Hex("src")
 	if o.Cmd == "kat" { // published vector: the model must reproduce `want`, and so must the code
@@ -209,6 +276,9 @@ func exec(line string) string {
 	}
 	if o.Cmd != "h" && o.Cmd != "at" {
 		return "bad-op"
+	}
+	if h.Size() != map[string]int{"md4": 16, "rmd160": 20}[o.Str("alg")] || h.BlockSize() != 64 {
+		return "bad-accessor"
 	}
 	var outs []string
 	for _, t := range o.List("ops") {
